@@ -89,6 +89,8 @@ class CallMixin:
         sp.locals['_nargs'] = PyConst(len(args))
         for i, a in enumerate(args):
             sp.locals['_arg%d' % i] = a
+        for i in range(len(args), 8):
+            sp.locals['_arg%d' % i] = NoneV()      # not passed positionally (test _nargs / _kw_<name> first)
         for k, v in kwargs.items():
             sp.locals['_kw_' + k] = v
         for i, e in enumerate(specs):
